@@ -122,8 +122,47 @@ def run(sids, tier, props):
     return results
 
 
+RELATED = {
+    "npstructures/raggedshape.py": ["C02", "C03", "C01", "C06", "C04", "C12", "C08", "C19", "C10", "C05", "C07", "C09"],
+    "npstructures/raggedarray/__init__.py": ["C05", "C04", "C01", "C07", "C09", "C08", "C06", "C10", "C17", "C11", "C19"],
+    "npstructures/raggedarray/base.py": ["C06", "C02", "C03", "C10", "C01", "C19"],
+    "npstructures/raggedarray/indexablearray.py": ["C02", "C03", "C06", "C08", "C09", "C10", "C11", "C19"],
+    "npstructures/raggedarray/raggedslice.py": ["C08", "C15", "C17"],
+    "npstructures/mixin.py": ["C08", "C15"],
+    "npstructures/arrayfunctions.py": ["C07", "C08", "C05", "C06", "C10"],
+    "npstructures/hashtable.py": ["C11", "C12"],
+    "npstructures/bitarray.py": ["C13"],
+    "npstructures/runlengtharray.py": ["C16", "C15", "C14", "C17"],
+    "npstructures/util.py": ["C14", "C16", "C17", "C07"],
+    "npstructures/npdataclasses.py": ["C18"],
+}
+
+
+def related_props(sid):
+    files = set()
+    for l in open(os.path.join(SEEDED, sid, "patch.diff")):
+        if l.startswith("+++ b/"):
+            files.add(l[6:].strip())
+    out = []
+    for f in sorted(files):
+        for p in RELATED.get(f, []):
+            if p not in out:
+                out.append(p)
+    return out
+
+
 def main():
     a = sys.argv[1:]
+    if a and a[0] == "matrix":
+        # every seed against the quick checks of all properties anchored in the files its patch touches
+        sids = a[1:] or sorted(os.listdir(SEEDED))
+        for sid in sids:
+            if os.path.isdir(os.path.join(SEEDED, sid)) and os.path.exists(os.path.join(SEEDED, sid, "meta.json")):
+                meta = json.load(open(os.path.join(SEEDED, sid, "meta.json")))
+                props = [p for p in related_props(sid) if "%s:quick" % p not in meta.get("detected_by", {})]
+                if props:
+                    run([sid], "quick", props)
+        return
     if a and a[0] == "harvest":
         harvest(a[1], a[2], a[3])
     elif a and a[0] == "run":
